@@ -249,7 +249,7 @@ fn injected_call(log: &strace::Log, fault: &Fault) -> Result<Option<u32>, String
 // ------------------------------------------------------------------------------------------------
 
 fn spec_text(s: &Spec) -> String {
-    format!("{} {}{} {}", TY_NAMES[(s.ty.min(NTY - 1)) as usize], if s.panic { "panic" } else { "return" }, if s.spurious { " after a spurious wake-up on its exit futex" } else { "" }, DISP_NAMES[s.disp.min(4) as usize])
+    format!("{} {}{} {}", TY_NAMES[(s.ty.min(NTY - 1)) as usize], if s.panic { "panic" } else { "return" }, if s.spurious { " after a spurious wake-up on its exit futex" } else if s.stall_k > 0 { " with stalled epilogue" } else { "" }, DISP_NAMES[s.disp.min(4) as usize])
 }
 
 /// Outcome-independent part: crash / deadlock / infrastructure. Returns false when the reports must not be judged.
@@ -332,6 +332,13 @@ fn judge_c05(env: &Env, case: &Case, out: &Outcome, injected: Option<u32>, fails
                 continue;
             }
             let want_buf = expected_buf(s.tag, s.buflen as usize);
+            if s.stall_k > 0 {
+                rep.class_if(sr.stall_obs & 1 != 0 && s.joined(), "join-called-while-the-thread-sleeps-in-its-epilogue");
+                rep.class_if(sr.stall_obs & 1 != 0 && !s.joined(), "handle-dropped-while-the-thread-sleeps-in-its-epilogue");
+                if sr.stall_obs & 2 != 0 {
+                    fails.push(f(format!("join|returned while the thread was still running its epilogue|{}", if s.panic { "panicked" } else { "returned" }), format!("{ctxt}: join came back while the thread was still asleep inside a free of its epilogue (stalled free #{} of {} ns): join must block until the thread has finished", sr.stall_obs >> 4, s.stall_ns)));
+                }
+            }
             if s.spurious {
                 rep.class_if(sr.woke == 1, "spurious-wake-delivered-to-parked-joiner");
                 rep.class_if(sr.woke == 2, "spurious-wake-found-nobody-parked");
@@ -747,10 +754,10 @@ fn spec_strategy(c06: bool) -> impl Strategy<Value = Spec> {
         delay_strategy(),
         prop_oneof![2 => Just(0u16), 3 => 1u16..64, 1 => 64u16..4096],
         any::<u64>(),
-        (-40_000i64..200_000, prop::bool::weighted(0.12), 200_000u32..1_500_000),
+        (-40_000i64..200_000, prop::bool::weighted(0.12), 200_000u32..1_500_000, prop::bool::weighted(0.10), 1u8..=2, 200_000u32..700_000),
     )
-        .prop_map(|(ty, panic, disp, inline, cd, pd, buflen, tag, (jitter, spurious, sp_delay))| {
-            let mut s = Spec { ty, panic, disp, inline, child_delay: cd, parent_delay: pd, buflen, tag, spurious: false };
+        .prop_map(|(ty, panic, disp, inline, cd, pd, buflen, tag, (jitter, spurious, sp_delay, stall, stall_k, stall_ns))| {
+            let mut s = Spec { ty, panic, disp, inline, child_delay: cd, parent_delay: pd, buflen, tag, spurious: false, stall_ns: 0, stall_k: 0 };
             if spurious && !panic && (disp == DISP_JOIN || disp == DISP_KEEP_END) {
                 // the thread sleeps first so that the joiner is parked when the spurious wake-up arrives
                 s.spurious = true;
@@ -758,6 +765,12 @@ fn spec_strategy(c06: bool) -> impl Strategy<Value = Spec> {
                 if disp == DISP_JOIN {
                     s.parent_delay = Delay::None;
                 }
+            }
+            if stall && !s.spurious && disp != DISP_DROP_NOW && disp != DISP_KEEP_END {
+                // the parent acts exactly while the thread sleeps in its epilogue
+                s.stall_ns = stall_ns;
+                s.stall_k = stall_k;
+                s.parent_delay = Delay::None;
             }
             if disp == DISP_DROP_FINISHING {
                 // "while finishing": the parent's delay equals the child's, plus or minus jitter; carried out at once
@@ -815,7 +828,7 @@ fn fault_case_strategy(builds: Vec<&'static str>) -> impl Strategy<Value = Case>
 }
 
 fn sp(ty: u8, panic: bool, disp: u8, inline: bool, cd: Delay, pd: Delay, buflen: u16, tag: u64) -> Spec {
-    Spec { ty, panic, disp, inline, child_delay: cd, parent_delay: pd, buflen, tag, spurious: false }
+    Spec { ty, panic, disp, inline, child_delay: cd, parent_delay: pd, buflen, tag, spurious: false, stall_ns: 0, stall_k: 0 }
 }
 
 /// The four fixed small batches of the fault enumeration.
@@ -896,6 +909,19 @@ fn spurious_batch() -> Batch {
     Batch { specs }
 }
 
+/// Threads whose epilogue is stretched (every free after the closure sleeps 0.6 ms); the parent joins,
+/// or drops the handle, exactly when the k-th of those frees has begun.
+fn stall_batch(k: u8, join: bool) -> Batch {
+    let mut specs = Vec::new();
+    for (n, ty) in [2u8, 0, 8, 9, 5, 7].into_iter().enumerate() {
+        let mut s = sp(ty, n == 4, if join { DISP_JOIN } else { DISP_DROP_LATER }, true, Delay::Spin(2_000), Delay::None, 16, 0x57a0 + n as u64);
+        s.stall_ns = 600_000;
+        s.stall_k = k;
+        specs.push(s);
+    }
+    Batch { specs }
+}
+
 pub fn run(ctx: &Ctx) {
     let c06 = ctx.prop == "C06";
     let env = Env {
@@ -911,6 +937,19 @@ pub fn run(ctx: &Ctx) {
     };
     let builds = builds_for(ctx);
     let max_b = if ctx.thorough() { 10 } else { 5 };
+    // join / drop exactly while the thread is in its (stretched) epilogue
+    if let Some(case) = ctx.replay_case::<Case>("epilogue") {
+        ctx.run_one("epilogue", &case, || env.attempt(&case));
+    } else if !ctx.is_replay() {
+        for (k, build) in builds.iter().enumerate() {
+            if (k as u32 + 1) % ctx.nworkers == ctx.worker {
+                let case = Case { build: build.to_string(), strace: false, fault: None, batches: vec![stall_batch(1, true), stall_batch(2, true), stall_batch(3, true), stall_batch(1, false), stall_batch(2, false), stall_batch(3, false)] };
+                if !ctx.run_one("epilogue", &case, || run_case(&env, &case)) {
+                    break;
+                }
+            }
+        }
+    }
     // a wait on the exit futex that returns without the thread having exited (spurious wake-up)
     if let Some(case) = ctx.replay_case::<Case>("spurious") {
         ctx.run_one("spurious", &case, || env.attempt(&case));
